@@ -65,11 +65,33 @@ and the `Visits` / `Covers` / `LNode.Ok` hypotheses above are PROVED for it: `C0
 defined, no recursion).  `C05_published_instance_is_flat_call_stateless_arms` proves the main corollary for the WIDER class
 `noStatefulInArmsN` (calls of functions without state allowed inside `if` arms — everything outside finding F3's class; the
 reference semantics creates a stateless child node only when the arm runs, so the statement is about flat images instead
-of trees; `C05_wider_class`: the narrow class is contained).  Outside the class the layout is not visited in order:
-`C05_state_in_arms_not_visited` (finding F3 at model level).
-NOT proved: that the Rust `mirgen` computes `publishFn` (corresponded, not proved); the agreement corollaries
-(`…_same_words_same_eval_future`, `…_eval_respects_agreement`, `…_state_effect_is_tree_ops`) are proved for the narrow class
-only (their `Covers` / tree-equality statements exclude call sites without a cell); and that returned values have the word
+of trees; `C05_wider_class`: the narrow class is contained).
+
+## state inside `if` arms — no class condition (added with the repair of finding F3)
+
+The repaired compiler publishes the cells of BOTH arms of an `if` (condition ++ `then` ++ `else`; `pubE` follows it), so
+every stateful site owns its own cell (`C05_state_in_arms_own_cells`, the former witness of F3) and one call reaches, in
+layout order, the cells outside arms and those of the arms taken.  Payloads mark the cells not reached with `CPay.skip`
+(`treeCell c .skip` = identity, `flatCell c .skip` = no instruction).  Proved for EVERY program (only `SitesUnique` /
+`SitesOk` and `publishFnN n P d = some lay` are left as hypotheses):
+* run-time judge: `C05_selected_trace_sound` (what `conformsSel` accepts is an in-order sub-selection — `List.Sublist` — of
+  the accesses the layout prescribes, each one a leaf cell of the right kind at its layout offset inside `total_size`, cursor
+  0), `C05_selected_trace_self_first_last`, `C05_conforming_trace_is_selected` (the strict judge is the special case);
+* `C05_eval_state_effect_is_tree_ops_arms` (induction over the fuel, all 18 constructs): for `VisitsA P e seg` the state
+  effect of `Core.eval` IS `treeCells seg ps`, `ps` skipping exactly the cells of the arms not taken
+  (`C05_visits_is_visitsA`: `Visits` is the special case);
+* `C05_flat_eq_tree_arms`: `C05_flat_eq_tree` for payloads that skip cells — accesses = `self` read, the accesses of the
+  cells reached, `self` write, a `Sublist` of `expectedTrace lay.sk`, in bounds, cursor restored, `serialize` commutes;
+  `C05_eval_instance_is_flat_call_arms`;
+* `C05_publish_visits_arms` (whatever `pubE` publishes is `VisitsA`-visited), `C05_publishFn_covers_arms`, and the
+  corollaries **`C05_published_instance_is_flat_call_arms`** (the flat-call simulation at the published offsets, tree
+  equality, no `noStateInArmsN` / `noStatefulInArmsN`), `C05_published_state_effect_is_tree_ops_arms`,
+  `C05_published_same_words_same_eval_future_arms`, `C05_published_eval_respects_agreement_arms`.
+NOT proved: that the Rust `mirgen` computes `publishFn` (corresponded, not proved); that the accesses of a call with a
+skipping payload are accepted by the GREEDY executable judge `conformsSel` (proved: they are a `Sublist` of the expected
+trace with `self` first and last, which is what the judge's soundness theorem states; the judge itself is applied to the
+real VM's traces); `match` is not a construct of the reference semantics (its arms are corresponded on VM vs WASM, C01);
+and that returned values have the word
 count of their `Feed` cell (`NPayOk`, a typing fact; soundness of the type checker is not proved, see C03).
 -/
 namespace Mimium.Layout
@@ -760,6 +782,53 @@ theorem C05_published_instance_is_flat_call_arms (fuel n : Nat) (P : Prog) (d : 
   have := hin a ha
   rw [hlen, ← hsz] at this
   exact this
+
+/-- **the published layout covers every body** (`Covers`, the hypothesis of the agreement theorems) — no class condition -/
+theorem C05_publishFn_covers_arms (n : Nat) (P : Prog) (d : FnDecl) (lay : LNode) (hpub : publishFnN n P d = some lay) :
+    lay.self = d.selfShape ∧ VisitsA P d.body lay.cells ∧ Covers P lay.cells d.body :=
+  have hi := publishFnN_inv hpub
+  ⟨hi.1, C05_publish_visits_arms n P d.body lay.cells hi.2, (publishFnN_coversA n P d lay hpub).2⟩
+
+/-- `C05_published_same_words_same_eval_future` without `noStateInArmsN`: what an instance of ANY function returns, sample
+after sample, depends only on its flat state words laid out by the published layout -/
+theorem C05_published_same_words_same_eval_future_arms (fuel n : Nat) (P : Prog) (d : FnDecl) (lay : LNode)
+    (samples : List (Rt × Env × Store)) (a b : SNode)
+    (hpub : publishFnN n P d = some lay) (hs : SitesUnique P) (hd : SitesOk d.body)
+    (ha : ConformsS lay a) (hb : ConformsS lay b) (h : serialize lay a = serialize lay b) :
+    instRun fuel P d.selfShape d.body samples a = instRun fuel P d.selfShape d.body samples b := by
+  obtain ⟨hself, _, hcov⟩ := C05_publishFn_covers_arms n P d lay hpub
+  rw [← hself]
+  exact C05_same_words_same_eval_future fuel P lay d.body samples a b (C05_publish_ok n P d lay hs hd hpub) hcov ha hb h
+
+/-- `C05_published_eval_respects_agreement` without `noStateInArmsN` -/
+theorem C05_published_eval_respects_agreement_arms (n : Nat) (P : Prog) (d : FnDecl) (lay : LNode) (rt : Rt) (fuel : Nat)
+    (env : Env) (σ : Store) (st₁ st₂ : SNode)
+    (hpub : publishFnN n P d = some lay) (hs : SitesUnique P) (hd : SitesOk d.body)
+    (hag : AgreeN lay.cells st₁ st₂) :
+    SRel (RE lay.cells) (eval fuel P rt env d.body σ st₁) (eval fuel P rt env d.body σ st₂) :=
+  C05_eval_respects_agreement P rt fuel d.body lay.cells env σ st₁ st₂ (C05_publish_ok n P d lay hs hd hpub)
+    (C05_publishFn_covers_arms n P d lay hpub).2.2 hag
+
+/-! non-vacuity of the `_arms` theorems on the witness of the former finding F3, `dsp() = if (now > 2) counter() else
+counter()*100`, layout `[child 1 (self), child 2 (self)]`: a call in which the `else` arm runs has the payload
+`[skip, child 9]`; on the storage `[5, 7]` it reads and writes the SECOND word only (`get 1`, `set 1`), which the generalised
+checker accepts and the strict one rejects; the tree operation leaves the first instance alone -/
+example :
+    let lay : LNode := ⟨none, [.child 1 (some .num) [], .child 2 (some .num) []]⟩
+    let pay : NPay := ⟨.num 0, [.skip, .child (.num 9) []]⟩
+    NPayOkA lay pay ∧ lay.Ok ∧
+    accessesOf 0 (flatNode lay pay) = [⟨.get, 1, 1⟩, ⟨.set, 1, 1⟩] ∧
+    conformsSel (publishedSk lay) (accessesOf 0 (flatNode lay pay)) (cursorAfter 0 (flatNode lay pay)) = true ∧
+    conforms (publishedSk lay) (accessesOf 0 (flatNode lay pay)) (cursorAfter 0 (flatNode lay pay)) = false ∧
+    vmRun ⟨0, [5, 7]⟩ (flatNode lay pay) = some (⟨0, [5, 9]⟩, [7]) := by
+  intro lay pay
+  refine ⟨?_, ?_, ?_, ?_, ?_, ?_⟩
+  · simp [NPayOkA, RetOk, PayOkAL, PayOkA, lay, pay, flattenVal, shapeSize]
+  · simp [LNode.Ok, LayOkL, LayOk, sitesOf, LCell.site, lay]
+  · rfl
+  · decide +kernel
+  · decide +kernel
+  · decide +kernel
 
 /-- `publishFn` / `publishE` / `noStateInArms` are the instances at depth `|P.fns|` -/
 theorem C05_publishFn_is_depth_instance (P : Prog) (d : FnDecl) (e : Expr) :
